@@ -31,24 +31,15 @@ Theorem C07_cli_path_env_last :
 Proof. exact search_list_nil. Qed.
 Print Assumptions C07_cli_path_env_last.
 
-(** Over EVERY history of operations and EVERY fault schedule: a file (canonical path) whose
-    content is valid UTF-8 is read successfully at most once per State, whatever spellings,
-    symlinks, import kinds or importers reach it.  (Restricted to ~KnownClass = valid UTF-8;
-    see C07_load_once_refuted.) *)
+(** Over EVERY history of operations and EVERY fault schedule: a file (canonical path) is read
+    successfully at most once per State, whatever its content (valid UTF-8 or not) and whatever
+    spellings, symlinks, import kinds or importers reach it.  (Unrestricted since the repair
+    c43636f; before it non-UTF-8 files were read again on every importstr/import.) *)
 Theorem C07_load_once :
   forall w fuel h c,
-    utf8_file w c = true ->
     (count (is_ok_load c) (s_log (snd (run_hist w fuel h init))) <= 1)%nat.
 Proof. exact load_once. Qed.
 Print Assumptions C07_load_once.
-
-(** KNOWN FINDING C07-nonutf8-reread: a non-UTF-8 file reached through importstr/import is
-    read again on every attempt (the entry is inserted only after the UTF-8 check). *)
-Theorem C07_load_once_refuted :
-  exists w fuel h c,
-    count (is_ok_load c) (s_log (snd (run_hist w fuel h init))) = 2%nat.
-Proof. exact load_once_refuted. Qed.
-Print Assumptions C07_load_once_refuted.
 
 (** Over every history and fault schedule: the body of a file completes evaluation at most once,
     and no evaluation of it starts after one has completed. *)
